@@ -164,6 +164,7 @@ func main() {
 		}
 		return
 	}
+	thoroughTier = *tier == "thorough"
 	prop := properties[*pid]
 	if prop == nil {
 		fmt.Println("unknown property", *pid)
@@ -203,6 +204,7 @@ func main() {
 	replayed := 0
 	var samples []any
 	vacuityProblems := []string{}
+	var crossEv []map[string]any
 	var entriesByPkg = map[string][]string{}
 	jobs := prop.Jobs(*tier)
 	for _, j := range jobs {
@@ -267,6 +269,38 @@ func main() {
 				if twinViol == 0 {
 					vacuityProblems = append(vacuityProblems, fmt.Sprintf("job %s: twin (assert false) came back unviolated", job.Name))
 				}
+			}
+		}
+		// cross-solver check (thorough): same exploration on two other solvers
+		if job.Cross && *tier == "thorough" {
+			sig := func(r *JobResult) string {
+				cs := map[string]bool{}
+				for _, v := range r.Violations {
+					cs[v.Class] = true
+				}
+				var ks []string
+				for k := range cs {
+					ks = append(ks, k)
+				}
+				sort.Strings(ks)
+				return fmt.Sprintf("paths=%d classes=%v", r.Paths, ks)
+			}
+			for _, alt := range [][]string{{"z3-new", "-in"}, {"cvc5", "--incremental", "--produce-models"}} {
+				ar, err := RunJob(prog, job, *workers, false, alt)
+				status := "agree"
+				if err != nil {
+					status = "error: " + err.Error()
+				} else if ar.Unknown > 0 || ar.Inconclusive() > 0 {
+					status = fmt.Sprintf("inconclusive on this solver (%d unknown answers)", ar.Unknown)
+				} else if sig(ar) != sig(res) {
+					status = "DISAGREE: " + sig(ar) + " vs " + sig(res)
+					fmt.Printf("SOLVER-DISAGREEMENT: job %s %s: %s\n", job.Name, alt[0], status)
+					if exit == 0 {
+						exit = 2
+					}
+				}
+				crossEv = append(crossEv, map[string]any{"job": job.Name, "solver": alt[0], "result": status, "queries": ar.Queries, "solver_time_s": ar.SolverTime.Seconds()})
+				fmt.Printf("   cross-check %s: %s\n", alt[0], status)
 			}
 		}
 		// group counterexamples by class
@@ -434,6 +468,7 @@ func main() {
 			"translator_validation":         map[string]any{"corpus_programs_compared": tvProgs, "byte_identical": tvProgs, "sample": tvSamples},
 			"load_ssa_s":                    loadT.Seconds(),
 			"vacuity_problems":              vacuityProblems,
+			"cross_solver_checks":           crossEv,
 		},
 	}
 	os.MkdirAll("/verif/evidence", 0o755)
@@ -490,6 +525,7 @@ func writeReplay(id string, n int, v *Violation, job *Job, rr ReplayResult) stri
 // ---- translator validation ----
 
 var tvRetry sync.Mutex
+var thoroughTier bool
 var lastOut string
 
 type TVResult struct {
